@@ -36,6 +36,7 @@ const (
 	FStrEscapes
 	FEq
 	FMul
+	FDiv
 	FAll uint64 = 1<<iota - 1
 )
 
@@ -65,10 +66,11 @@ type GenStatsT struct {
 }
 
 type gvar struct {
-	name string
-	t    *Type
-	uses int
-	lit  bool // bound to a known small literal (safe index / recursion argument)
+	name    string
+	t       *Type
+	uses    int
+	lit     bool // bound to a known small literal (safe index / recursion argument)
+	zeroish bool // an int bound to 0 / a small literal / v - v: the preferred divisor of a guarded division
 }
 
 type gfun struct {
@@ -460,6 +462,18 @@ func (g *gen) expr(t *Type, d int) *Expr {
 			return eBin(op, a, b, tInt)
 		}})
 		alts = append(alts, alt{2, func() *Expr { return g.noisy(g.expr(tInt, d-1)) }})
+		if g.has(FDiv) && !g.prof.Tiny {
+			alts = append(alts, alt{1, func() *Expr { // division by a non-zero literal
+				var dv *Expr = eInt(int64(1 + g.r.Intn(9)))
+				if g.r.Chance(1, 4) {
+					dv = eBin("-", eInt(0), dv, tInt) // there are no negative literals in Folang
+				}
+				return eBin("/", g.expr(tInt, d-1), dv, tInt)
+			}})
+			if g.has(FIfValue) && top {
+				alts = append(alts, alt{2, func() *Expr { return g.guardedDiv() }})
+			}
+		}
 	case TString:
 		alts = append(alts, alt{3, func() *Expr { return eBin("sadd", g.expr(tString, d-1), g.expr(tString, d-1), tString) }})
 		if g.has(FInterp) {
@@ -631,10 +645,81 @@ func (g *gen) ifExpr(t *Type, d int) *Expr {
 	} else {
 		e.Blocks[1] = g.block(t, d-1, 2)
 	}
-	if t.K == TUnit && tailIfOnly(e.Blocks[0]) {
+	if t.K == TUnit && !g.prof.Tiny && g.has(FIfStmt) && g.r.Chance(1, 4) {
+		// the dangling-else layout: the then-block ends in `if c then e` on one line (no else of its own)
+		// and is followed by the else / elif of this if; half of the time the bodies that follow are
+		// single expressions (the printer then writes them on the else / elif line)
+		b := e.Blocks[0]
+		if c := g.cond(1); singleLine(c) {
+			if body := g.printStmt(1); singleLine(body) {
+				if !tailIfOnly(b) {
+					b.Stmts = append(b.Stmts, &Stmt{K: SDo, E: b.E})
+				}
+				b.E = &Expr{K: EIfOnly, Args: []*Expr{c}, Blocks: []*Block{blockOf(body)}, T: tUnit}
+				if g.r.Bool() {
+					for eb := e.Blocks[1]; ; {
+						if len(eb.Stmts) == 0 && eb.E.K == EIf {
+							if tb := eb.E.Blocks[0]; !inlineBlock(tb) && !oneLineIfOnly(tb.E) {
+								eb.E.Blocks[0] = blockOf(g.printStmt(1))
+							}
+							eb = eb.E.Blocks[1]
+							continue
+						}
+						if !inlineBlock(eb) {
+							*eb = *blockOf(g.printStmt(1))
+						}
+						break
+					}
+				}
+			}
+		}
+	}
+	if t.K == TUnit && tailIfOnly(e.Blocks[0]) && (g.prof.Tiny || !oneLineIfOnly(e.Blocks[0].E)) {
 		b := e.Blocks[0]
 		b.Stmts = append(b.Stmts, &Stmt{K: SDo, E: b.E})
 		b.E = eUnit()
+	}
+	return e
+}
+
+// plainInt: an int expression made of variables, field accesses, literals and + - only, not a bare literal
+// (what a compiler may be tempted to evaluate early: "nothing is called").
+func (g *gen) plainInt() *Expr {
+	v := g.varOfType(tInt)
+	if v == nil {
+		return nil
+	}
+	e := g.use(v)
+	if g.r.Chance(1, 3) {
+		e = eBin(Choose(g.r, []string{"+", "-"}), e, eInt(int64(g.r.Intn(4))), tInt)
+	}
+	return e
+}
+
+// guardedDiv: `if d = 0 then dflt else n / d` (or with <> and the branches exchanged): the division is in the
+// branch the guard excludes when d is 0, and both branches are plain expressions. d is a variable, so that
+// Go does not fold the division.
+func (g *gen) guardedDiv() *Expr {
+	dv := g.varOfType(tInt)
+	if dv == nil {
+		return nil
+	}
+	return g.guardedDivOn(dv)
+}
+
+func (g *gen) guardedDivOn(dv *gvar) *Expr {
+	dflt, num := g.plainInt(), g.plainInt()
+	if dflt == nil || num == nil {
+		return nil
+	}
+	div := eBin("/", num, g.use(dv), tInt)
+	e := &Expr{K: EIf, T: tInt}
+	if g.r.Bool() {
+		e.Args = []*Expr{{K: EEq, Args: []*Expr{g.use(dv), eInt(0)}, T: tBool}}
+		e.Blocks = []*Block{blockOf(dflt), blockOf(div)}
+	} else {
+		e.Args = []*Expr{{K: ENeq, Args: []*Expr{g.use(dv), eInt(0)}, T: tBool}}
+		e.Blocks = []*Block{blockOf(div), blockOf(dflt)}
 	}
 	return e
 }
@@ -1323,7 +1408,69 @@ func (g *gen) funExpr(t *Type, d int) *Expr {
 	return nil
 }
 
+// etaShaped: `fun x -> f a.. x` where the body is nothing but a full call of a function of known,
+// non-generic type whose LAST argument is the parameter and where the parameter also occurs in an earlier
+// argument (`fun n -> mul n n`): eta-reducing it to the partial application `f a..` would let the
+// earlier occurrence escape the lambda.
+func (g *gen) etaShaped(pt *Type, rt *Type, d int) *Expr {
+	type cand struct {
+		c    callee
+		here []int // earlier parameter positions of the parameter's type
+	}
+	var cands []cand
+	for _, c := range g.callees() {
+		cps := c.t.FunParams()
+		if len(cps) < 2 || !c.t.FunRet().Equal(rt) || !cps[len(cps)-1].Equal(pt) {
+			continue
+		}
+		if c.fn != nil && (c.fn.recursive || c.fn == g.self) {
+			continue
+		}
+		var here []int
+		for i, p := range cps[:len(cps)-1] {
+			if p.Equal(pt) {
+				here = append(here, i)
+			}
+		}
+		if len(here) > 0 {
+			cands = append(cands, cand{c, here})
+		}
+	}
+	if len(cands) == 0 {
+		return nil
+	}
+	k := Choose(g.r, cands)
+	x := g.freshVar()
+	e := &Expr{K: ELam, T: tFun([]*Type{pt}, rt), Params: []Param{{x, pt}}}
+	cps := k.c.t.FunParams()
+	at := Choose(g.r, k.here)
+	var args []*Expr
+	for i, p := range cps[:len(cps)-1] {
+		switch {
+		case i == at:
+			args = append(args, eVar(x, pt))
+		case p.K == TUnit || p.K == TFun:
+			return nil
+		default:
+			args = append(args, g.leaf(p, 0))
+		}
+	}
+	args = append(args, eVar(x, pt))
+	for _, a := range args {
+		if a == nil {
+			return nil
+		}
+	}
+	e.Blocks = []*Block{blockOf(g.mkCall(k.c, args))}
+	return e
+}
+
 func (g *gen) lambda(ps []*Type, rt *Type, d int) *Expr {
+	if len(ps) == 1 && g.r.Chance(1, 3) {
+		if e := g.etaShaped(ps[0], rt, d); e != nil {
+			return e
+		}
+	}
 	e := &Expr{K: ELam, T: tFun(ps, rt)}
 	mark := len(g.scope)
 	var vs []*gvar
@@ -1746,6 +1893,89 @@ func (g *gen) stmt(d int) []*Stmt {
 			return []*Stmt{{K: SLet, Name: n, E: e}}
 		}})
 	}
+	if g.has(FDiv) && g.has(FIfValue) && !g.prof.Tiny {
+		alts = append(alts, sa{1, func() []*Stmt { // an int variable that is (often) zero at run time
+			dn := g.freshVar()
+			var de *Expr
+			switch g.r.Intn(4) {
+			case 0:
+				de = eInt(int64(g.r.Intn(3)))
+			case 1:
+				if v := g.varOfType(tInt); v != nil {
+					de = eBin("-", g.use(v), g.use(v), tInt) // zero, but not a constant for Go
+					break
+				}
+				fallthrough
+			default:
+				de = eInt(0)
+			}
+			g.push(dn, tInt).zeroish = true
+			return []*Stmt{{K: SLet, Name: dn, E: de}}
+		}})
+		alts = append(alts, sa{2, func() []*Stmt { // a division guarded against a zero divisor, preferably such a variable
+			var dv *gvar
+			if g.r.Chance(3, 4) {
+				dv = g.pickVar(func(v *gvar) bool { return v.zeroish })
+			}
+			if dv == nil {
+				dv = g.varOfType(tInt)
+			}
+			if dv == nil {
+				return nil
+			}
+			gd := g.guardedDivOn(dv)
+			if gd == nil {
+				return nil
+			}
+			rn := g.freshVar()
+			g.push(rn, tInt)
+			return []*Stmt{{K: SLet, Name: rn, E: gd}}
+		}})
+	}
+	if g.has(FLambda) && !g.prof.Tiny && d > 1 {
+		alts = append(alts, sa{1, func() []*Stmt { // let of an eta-shaped lambda (see etaShaped)
+			var e *Expr
+			if g.r.Chance(1, 3) {
+				// non-generic library functions with two string parameters
+				name := Choose(g.r, []string{"strings.AppendHead", "strings.AppendTail", "strings.HasPrefix", "strings.HasSuffix"})
+				rt := tString
+				if strings.HasPrefix(name, "strings.Has") {
+					rt = tBool
+				}
+				x := g.freshVar()
+				e = &Expr{K: ELam, T: tFun([]*Type{tString}, rt), Params: []Param{{x, tString}},
+					Blocks: []*Block{blockOf(eExt(name, []*Expr{eVar(x, tString), eVar(x, tString)}, rt))}}
+			} else {
+				// any callable in scope with two parameters of one first-order type, the last one included
+				type pr struct{ pt, rt *Type }
+				var prs []pr
+				for _, c := range g.callees() {
+					cps := c.t.FunParams()
+					last := cps[len(cps)-1]
+					if len(cps) < 2 || !last.FirstOrder() || !c.t.FunRet().FirstOrder() {
+						continue
+					}
+					for _, p := range cps[:len(cps)-1] {
+						if p.Equal(last) {
+							prs = append(prs, pr{last, c.t.FunRet()})
+							break
+						}
+					}
+				}
+				if len(prs) == 0 {
+					return nil
+				}
+				k := Choose(g.r, prs)
+				e = g.etaShaped(k.pt, k.rt, d)
+			}
+			if e == nil {
+				return nil
+			}
+			n := g.fresh("fn")
+			g.push(n, e.T)
+			return []*Stmt{{K: SLet, Name: n, E: e}}
+		}})
+	}
 	for tries := 0; tries < 4; tries++ {
 		tot := 0
 		for _, a := range alts {
@@ -1885,7 +2115,7 @@ func (g *gen) funDecl(idx int) *Decl {
 		g.self = nil
 		cond := eBin("<=", eVar(vs[0].name, tInt), eInt(0), tBool)
 		d.Body = blockOf(&Expr{K: EIf, Args: []*Expr{cond}, Blocks: []*Block{base, rec}, T: d.Ret})
-		if d.Ret.K == TUnit && tailIfOnly(base) {
+		if d.Ret.K == TUnit && tailIfOnly(base) && (g.prof.Tiny || !oneLineIfOnly(base.E)) {
 			base.Stmts = append(base.Stmts, &Stmt{K: SDo, E: base.E})
 			base.E = eUnit()
 		}
